@@ -111,17 +111,21 @@ class DFTA(Generic[U, V]):
         self.finals = self.finals.intersection(new_states)
 
     def __remove_unproductive__(self) -> None:
-        removed = True
-        while removed:
-            removed = False
-            consumed: Set[U] = {q for q in self.finals}
-            for _, args in self.rules:
-                for arg in args:
-                    consumed.add(arg)
-            for S, dst in list(self.rules.items()):
-                if dst not in consumed:
-                    del self.rules[S]
-                    removed = True
+        # A state is productive iff it is final or it is consumed by a rule
+        # whose destination is productive (backward fix-point from the finals).
+        productive: Set[U] = {q for q in self.finals}
+        added = True
+        while added:
+            added = False
+            for (_, args), dst in self.rules.items():
+                if dst in productive:
+                    for arg in args:
+                        if arg not in productive:
+                            productive.add(arg)
+                            added = True
+        self.rules = {
+            S: dst for S, dst in self.rules.items() if dst in productive
+        }
 
     def reduce(self) -> None:
         """
